@@ -7,7 +7,7 @@ from fibertree.model.compute import Compute
 BOUNDS = {
     "quick": "two-operand intersections a_k & b_k inside a loop over 1..2 parent fibers, each operand 0..2 stored coordinates (symbolic), consumable intersect_0/1 traces fed "
              "to the two-finger, skip-ahead and leader-follower models fiber-by-fiber and in one shot; numSwaps on 2..3 lists of 1..2 symbolic coordinates with symbolic payload "
-             "values, radix in {2,3,100}, next_latency symbolic >= 0 or 'N'",
+             "values, radix in {2,3,100}, next_latency symbolic >= 0 or 'N'; an empty batch drained before the first fiber; one-shot batching across 2 (3 thorough) consecutive fibers is an ordinary obligation since F21 was repaired",
     "thorough": "operands up to 3 coordinates, 3 parent fibers for fiber-by-fiber batching, 4 lists for numSwaps, depth-1 numSwaps",
 }
 OUTSIDE = "more consecutive fibers than the bound; radix given as the string 'N' (the code needs a number; tests use float('inf'))"
